@@ -147,7 +147,7 @@ def validate(ctx, traces, shards, cfg="Trace.cfg"):
   def one(part):
     # several single-worker JVMs run side by side: keep their GC thread pools small
     r, rej = tracecheck.validate(SPEC, "TraceTopo", cfg, [strip(traces[i]) for i in part],
-                                 tag="C19", timeout=1500,
+                                 tag="C19", timeout=(300 if ctx.tier == "quick" else 1500),
                                  extra_env={"JAVA_TOOL_OPTIONS": "-XX:ParallelGCThreads=2"})
     return part, r, rej
   bad, silent = {}, []
